@@ -61,7 +61,10 @@ class InternalCompiler(Compiler):
 
             # 2.2 Map iret qubit to the symbol
             self.expqmap[sym] = iret
-            qc.map_qubit(sym, iret, promote=not is_temp)
+            # The result of a statement is never uncomputed inline, even for a temp
+            # symbol: the gates that computed it are controlled by scratch qubits
+            # that are uncomputed (and reused) right below
+            qc.map_qubit(sym, iret, promote=True)
 
             # 2.3 Remove all the temp qubits
             self.expqmap.remove(qc.uncompute())
